@@ -93,6 +93,13 @@ CTX_TEMPLATES = [
     ('LazyArray(this.n, Byte)', dict(n=2), [1, 2]),
     ('Lazy(Bytes(this.n))', dict(n=2), b'ab'),
     ('LazyStruct("a"/Bytes(this._.n), "b"/Byte)', dict(n=2), dict(a=b'xy', b=1)),
+    # bit-level constructs whose size is only known from the context (Bitwise / Bytewise fall back to Restreamed)
+    ('Bitwise(Bytes(this.n))', dict(n=16), b'\x01\x00' * 8),
+    ('Bitwise(Array(this.n, Bit))', dict(n=8), [1, 0, 0, 0, 0, 0, 0, 1]),
+    ('BitStruct("a"/BitsInteger(this._.w), "b"/BitsInteger(16 - this._.w))', dict(w=5), dict(a=3, b=9)),
+    ('BitStruct("a"/Nibble, "b"/Bytewise(Bytes(this._.n)), "c"/Nibble)', dict(n=2), dict(a=1, b=b'xy', c=2)),
+    ('Bitwise(Struct("x"/BitsInteger(this._.w), "y"/Padding(8 - this._.w)))', dict(w=3), dict(x=5)),
+    ('BitsSwapped(Bytes(this.n))', dict(n=2), b'ab'),
 ]
 
 FIXED = [
@@ -163,9 +170,9 @@ def run(tier, seed):
         rule='context-dependent templates x keyword contexts that supply every / no / all-but-one referenced key and other '
              'key values; fixed and unsized constructs incl. Aligned at exact multiples, Prefixed(includelength), Lazy*; '
              'generated constructs of the sequential grammar x 2 values x 3 trailing strings. distinct = (construct shape, outcome)',
-        fragment='sizeof_nokey is proved for every construct of the model (all 59 classes); exactness (sizeof = bytes '
-                 'advanced) is decided by the oracle on the implementation and by correspondence',
-        partial=['C05_exact (sizeof c = Ok n -> build/parse advance n) is not yet a theorem'],
+        fragment='sizeof_nokey is proved for every construct of the model (all 59 classes); exactness (sizeof = bytes produced = bytes consumed) '
+                 'for every construct of the closed sequential fragment',
+        partial=['exactness is a theorem for the closed sequential fragment (SizeExact); context-dependent and bit-level constructs are decided by the oracle'],
         assumptions=[])
 
 
